@@ -346,7 +346,9 @@ func (k *ck) judgeSyntax(env *build.Env, src []byte, entry string) synResult {
 	case "Do":
 		panicked = c.Guard("panic", guardDetail("Do", quote(string(src))), func() {
 			r := graphql.Do(graphql.Params{Schema: env.Schema, RequestString: string(src)})
-			if r != nil && len(r.Errors) > 0 && strings.HasPrefix(r.Errors[0].Message, "Syntax Error") {
+			// the response's first error is the syntax error when the library's parser rejects the text
+			// (decided by calling the parser, not by the wording of the message)
+			if _, perr := harness.Parse(string(src)); perr != nil && r != nil && len(r.Errors) > 0 {
 				ferr = &r.Errors[0]
 			}
 		})
